@@ -19,7 +19,7 @@ RULE = (
     "PDU/item type, zero/oversize length, non-ASCII title bytes) or (c) random bytes, randomly segmented; checked: no simulated "
     "thread dies, the run ends within the configured timeouts, every PDU surfaced by EVT_PDU_RECV re-encodes and re-decodes to an "
     "equal value, and a class (a) probe is never answered with Evt19; non-trivial = the probe is not a plain valid PDU; distinct "
-    "= distinct probe byte strings x state"
+    "= distinct probe byte strings x state; after the last probe the peer waits for the reaction or ends the connection at once (close / reset: for a truncated probe a connection ending part-way through a PDU), and whatever was received the provider must end idle (Sta1) with its connection closed, i.e. have reacted through the state machine"
 )
 STUBS = ["scripted RawPeer"]
 
